@@ -164,77 +164,81 @@ def registry(run, p, km):
     run.floor('C02-REG', 1 + 2 * len(km), 21)
 
 
-class _Count(Walker):
-    def init_state(self):
-        return (0, 0, False, False)      # passes+, failures+, verifier called, verdict stored
-
-    def transfer(self, s, ws):
-        out = []
-        for w in ws:
-            a, b, called, stored = w.state
-            if isinstance(s, ast.AugAssign) and isinstance(s.op, ast.Add) and isinstance(s.target, ast.Name) \
-                    and isinstance(s.value, ast.Constant) and s.value.value == 1:
-                if s.target.id == 'passes':
-                    a += 1
-                elif s.target.id == 'failures':
-                    b += 1
-            elif isinstance(s, ast.AugAssign) and isinstance(s.target, ast.Name) and s.target.id in ('passes', 'failures'):
-                a += 99          # anything other than += 1
-            if isinstance(s, ast.Assign) and isinstance(s.value, ast.Call) and isinstance(s.value.func, ast.Name) \
-                    and s.value.func.id == 'verify':
-                called = True
-            if isinstance(s, ast.Assign) and isinstance(s.targets[0], ast.Subscript) and \
-                    norm(s.targets[0].slice) == 'c.kind' and norm(s.value) == 'satisfied':
-                stored = True
-            out.append(World(w.asg, w.atoms, w.weak, (a, b, called, stored)))
-        return out
-
-
 def count(run, p):
-    run.rule('C02-COUNT', 'in base.verify every verdict is counted exactly once: on each path through the per-constraint loop body '
-                          'a called verifier increments exactly one of passes/failures by 1 (passes iff satisfied), an unknown kind '
-                          'increments neither, the verdict is stored under c.kind, and both counters reach the field and overall totals')
+    import itertools
+    from ..pyeval import Interp, Model, Obj, Unsupported
+    run.rule('C02-COUNT', 'in base.verify every verdict is counted exactly once: for every combination of verdicts returned by stand-in '
+                          'verifiers (true, false, truthy and falsy non-booleans) over two fields, one of them with a constraint kind '
+                          'that has no verifier, the per-field and overall pass / failure counts equal the number of truthy / falsy '
+                          'verdicts, each verdict is stored under its kind, an unknown kind is stored as None and counted nowhere - '
+                          'decided by abstract execution of verify() itself, so helper extraction or a different way of counting '
+                          'does not matter')
     f = p.fn('tdda.constraints.base.verify')
-    inner = None
-    for n in ast.walk(f.node):
-        if isinstance(n, ast.For) and any(isinstance(x, ast.Call) and isinstance(x.func, ast.Name) and x.func.id == 'verify'
-                                          for x in ast.walk(n)) and not any(isinstance(x, ast.For) for x in n.body):
-            inner = n
-    if inner is None:
-        raise AnalysisError('base.verify: per-constraint loop not found')
-    fake = ast.FunctionDef(name='_body', args=ast.arguments(posonlyargs=[], args=[], kwonlyargs=[], kw_defaults=[], defaults=[]),
-                           body=inner.body, decorator_list=[], lineno=inner.lineno, col_offset=0)
-    w = _Count(fake, {'name', 'c', 'verifiers', 'detect', 'passes', 'failures', 'field_results', 'constraints'})
-    w.run()
-    npaths = 0
-    for kind, node, ws in w.exits:
-        for x in ws:
-            npaths += 1
-            a, b, called, stored = x.state
-            sat = x.atoms.get(('name', 'satisfied'))
-            ok = stored and ((called and a + b == 1 and ((a == 1) == (sat is True) or sat is None)) or
-                             (not called and a + b == 0))
-            if called and sat is True:
-                ok = ok and a == 1
-            if called and sat is False:
-                ok = ok and b == 1
-            run.ob('C02-COUNT', '%s::%s::path[called=%s,satisfied=%s]' % (f.rel, f.short, called, sat), ok,
-                   'loop-body path: verifier called=%s, satisfied=%s, passes+=%d, failures+=%d, verdict stored=%s'
-                   % (called, sat, a, b, stored), fn=f, node=inner)
-    # totals
-    src = [norm(s) for s in ast.walk(f.node) if isinstance(s, (ast.Assign, ast.AugAssign))]
-    need = ['field_results.failures = failures', 'results.failures += failures', 'field_results.passes = passes',
-            'results.passes += passes']
-    for t in need:
-        run.ob('C02-COUNT', '%s::%s::%s' % (f.rel, f.short, t), t in src, 'totals: `%s` %s' % (t, 'present' if t in src else 'MISSING'),
-               fn=f, nontrivial=False)
-    # counters reset per field
-    resets = [s for s in ast.walk(f.node) if isinstance(s, ast.Assign) and norm(s).replace(' ', '') in
-              ('failures=passes=0', 'passes=failures=0')]
-    gm = GuardMap(f.node)
-    ok = bool(resets) and all(len([g for g in (gm.chain(s) or ()) if g.kind == 'loop']) == 1 for s in resets)
-    run.ob('C02-COUNT', '%s::%s::reset' % (f.rel, f.short), ok, 'counters are reset once per field (inside the field loop, outside the constraint loop)', fn=f)
-    run.floor('C02-COUNT', npaths, 3)
+
+    class Con(Model):
+        def __init__(self, kind):
+            self.kind = kind
+
+    class Constraints(Model):
+        def __init__(self):
+            self.fields = {'a': [Con('k1'), Con('k2'), Con('nokind')], 'b': [Con('k3')]}
+
+    class Results(Model):
+        def __init__(self):
+            self.failures = 0
+            self.passes = 0
+            self.fields = {}
+            self.detection = None
+
+    class Ver(Model):
+        def __init__(self, ret, log):
+            self.ret, self.log = ret, log
+
+        def __call__(self, name, c, detect):
+            self.log.append((name, c.kind))
+            return self.ret
+
+    class MakeResults(Model):
+        def __init__(self):
+            self.made = None
+
+        def __call__(self, constraints, **kw):
+            self.made = Results()
+            return self.made
+    combos = list(itertools.product((True, False), repeat=3)) + [(1, 0, 'x'), ('', 2.5, 0)]
+    n = 0
+    for vals in combos:
+        I = Interp(p)
+
+        def hook(m, args, kwargs, selfobj):
+            if m.name == '__init__' and m.cls is not None and m.cls.name == 'TDDAObject':
+                return True, None
+            return False, None
+        I.on_call = hook
+        log = []
+        verifiers = {'k1': Ver(vals[0], log), 'k2': Ver(vals[1], log), 'k3': Ver(vals[2], log)}
+        mk = MakeResults()
+        try:
+            res = I.call(f, [Constraints(), ['a', 'b'], verifiers], {'VerificationClass': mk})
+        except Unsupported as e:
+            raise AnalysisError('base.verify is not evaluable: %s' % e)
+        n += 1
+        want = {'a': (int(bool(vals[0])) + int(bool(vals[1])), int(not vals[0]) + int(not vals[1])), 'b': (int(bool(vals[2])), int(not vals[2]))}
+        ok = res is mk.made and sorted(res.fields) == ['a', 'b'] and sorted(log) == [('a', 'k1'), ('a', 'k2'), ('b', 'k3')]
+        got = {}
+        if ok:
+            for fld, kinds in (('a', ('k1', 'k2', 'nokind')), ('b', ('k3',))):
+                fr = res.fields[fld]
+                attrs = fr.attrs if isinstance(fr, Obj) else {}
+                items = fr.items if isinstance(fr, Obj) else {}
+                got[fld] = (attrs.get('passes'), attrs.get('failures'))
+                exp_items = {'k1': vals[0], 'k2': vals[1], 'nokind': None, 'k3': vals[2]}
+                ok = ok and got[fld] == want[fld] and all(k in items and items[k] is exp_items[k] for k in kinds)
+            ok = ok and (res.passes, res.failures) == (want['a'][0] + want['b'][0], want['a'][1] + want['b'][1])
+        run.ob('C02-COUNT', '%s::%s::verdicts=%r' % (f.rel, f.short, vals), ok,
+               'verdicts %r: per-field (passes, failures) %s, totals (%s, %s); expected %s' % (
+                   vals, got, getattr(res, 'passes', '?'), getattr(res, 'failures', '?'), want), fn=f)
+    run.floor('C02-COUNT', n, 10)
 
 
 MINMAX = [(r'min', r'max'), (r'\bm\b', r'\bM\b'), (r'greater', r'less'), (r'fuzz_down', r'fuzz_up'),
